@@ -23,7 +23,7 @@ MANIFEST = {
 
 BOUNDS = {
     'quick': {'memsafe': [(3, 2), (4, 2), (4, 3), (5, 2), (6, 2)], 'spec': [(4, 2), (4, 3)], 'sample-only': [(4, 2), (3, 3)], 'forward': [(0, 0)]},
-    'thorough': {'memsafe': [(4, 3), (5, 3), (6, 2), (4, 4)], 'spec': [(5, 3), (6, 2)], 'sample-only': [(4, 3), (5, 2)], 'forward': [(0, 0)]},
+    'thorough': {'memsafe': [(4, 3), (5, 3), (6, 2), (4, 4), (7, 2), (6, 3)], 'spec': [(5, 3), (6, 2), (6, 3)], 'sample-only': [(4, 3), (5, 2), (5, 3), (6, 2)], 'forward': [(0, 0)]},
 }
 RATIOS = [1, 2, 3, 4, 5, 6, 7]
 
